@@ -1,0 +1,21 @@
+//go:build verif
+
+// Contracts for the deductive verifier in /verif (govc).  This file contains
+// only comments; it is never compiled into the package.
+package obfs4
+
+//@ func (*obfs4Conn).makePacket(conn, w, pktType, data, padLen) (err)
+//@   serves C09 C10
+//@   requires len(data) + padLen <= 1427
+//@   modifies w.*, conn.encoder.*
+//@   ensures [C09:frame_le_mss] err == nil && typeis(w, "*bytes.Buffer") ==> len(w.(*bytes.Buffer).content) == len(old(w.(*bytes.Buffer).content)) + 21 + len(data) + padLen
+
+//@ func (*obfs4Conn).padBurst(conn, burst, toPadTo) (err)
+//@   serves C09 C10
+//@   requires 0 <= toPadTo && toPadTo <= 1448
+//@   modifies burst.*, conn.encoder.*
+//@   ghost L0 := len(burst.content)
+//@   ghost T := L0 % 1448
+//@   ghost need := ite(toPadTo >= T, toPadTo - T, 1448 - T + toPadTo)
+//@   ensures [C09:tail_on_target] err == nil ==> (len(burst.content) % 1448 == toPadTo % 1448 || (0 < need && need <= 21 && len(burst.content) % 1448 == (toPadTo + 21) % 1448))
+//@   ensures [C09:added] err == nil ==> (need == 0 ==> len(burst.content) == L0) && (0 < need && need < 21 ==> len(burst.content) - L0 == 1448 + 21 + need) && (need == 21 ==> len(burst.content) - L0 == 21 || len(burst.content) - L0 == 1448 + 42) && (need > 21 ==> len(burst.content) - L0 == need)
